@@ -49,7 +49,7 @@ pub fn all() -> Vec<Prop> {
             id: "C01",
             run: props::quant::run_c01,
             replayers: props::quant::replayers,
-            rule: "Random: proptest cases = element type (i8..u64, usize, N64; N32 in thorough) x 1..4-D shape x axis x layout (C/F/permuted/stepped/reversed/padded view into a sentinel parent) x values (tiny alphabet, small, full width, type extremes; floats incl. signed zeros, subnormals, infinities, huge) x q recipes resolved against the lane length (0, 1, k/(N-1) and (k+1/2)/(N-1) each nudged by -2..2 ulp, 2^-1074, 1-2^-53, uniform) x 5 strategies x API (quantile_axis_mut, quantiles_axis_mut with 0..32 q, quantile_mut, quantiles_mut) x static/dynamic dimension x 1-2 pivot scripts (outputs must agree); distinct by hash of the whole case. Enumeration: all weak-order patterns of length <= 5 (quick) / 6 (thorough) x {i8,u16,N64} x 5 strategies x the boundary q set x ALL pivot sequences. Oracle: full sort of each lane, index = f64 product q*(N-1) (the exact-rational reading is also accepted when it differs), per-strategy acceptance in exact integer / dyadic arithmetic. Non-trivial: lane length >= 3, some lane not constant, and (lower index != higher index or q boundary-constructed). Cases matching the signature of the open known finding (Midpoint/Linear with a neighbour difference not representable in the element type) are counted as excluded, not judged.",
+            rule: "Random: proptest cases = element type (i8..u64, usize, N64; N32 in thorough) x 1..4-D shape x axis x layout (C/F/permuted/stepped/reversed/padded view into a sentinel parent) x values (tiny alphabet, small, one value repeated with a few others, huge base + small offsets, full width, type extremes; floats incl. signed zeros, subnormals, infinities, huge) x q recipes resolved against the lane length (0, 1, k/(N-1) and (k+1/2)/(N-1) each nudged by -2..2 ulp, 2^-1074, 1-2^-53, uniform) x 5 strategies x API (quantile_axis_mut, quantiles_axis_mut with 0..32 q, quantile_mut, quantiles_mut) x static/dynamic dimension x 1-2 pivot scripts (outputs must agree); distinct by hash of the whole case. Enumeration: all weak-order patterns of length <= 5 (quick) / 6 (thorough) x {i8,u16,N64} x 5 strategies x the boundary q set x ALL pivot sequences. Oracle: full sort of each lane, index = f64 product q*(N-1) (the exact-rational reading is also accepted when it differs), per-strategy acceptance in exact integer / dyadic arithmetic. Non-trivial: lane length >= 3, some lane not constant, and (lower index != higher index or q boundary-constructed). Cases matching the signature of the open known finding (Midpoint/Linear with a neighbour difference not representable in the element type) are counted as excluded, not judged.",
             assumptions: COMMON_ASSUMPTIONS,
             profiles_quick: BOTH,
             profiles_thorough: BOTH,
@@ -60,7 +60,7 @@ pub fn all() -> Vec<Prop> {
             id: "C02",
             run: props::sel::run_c02,
             replayers: props::sel::replayers,
-            rule: "Enumeration: every weak-order pattern (surjection onto 0..k) of the stated lengths x every in-range index (single) / every non-empty index subset in scrambled order with repeats (bulk) x EVERY pivot sequence, enumerated by DFS through the pivot hook; each (pattern, request, pivot sequence) triple is emitted exactly once, so enumerated cases are distinct by construction. Random: proptest cases (length <= 80/300, i64 with ties/extremes/sorted/reversed, strides +-1..3 inside a sentinel buffer, scripted pivots First/Last/Middle/Hash/real), distinct by 64-bit hash of the whole case. Non-trivial: array length >= 2 (so at least one pivot is drawn) and, for bulk, a non-empty request.",
+            rule: "Enumeration: every weak-order pattern (surjection onto 0..k) of the stated lengths x every in-range index (single) / every non-empty index subset in scrambled order with repeats (bulk) x EVERY pivot sequence, enumerated by DFS through the pivot hook; each (pattern, request, pivot sequence) triple is emitted exactly once, so enumerated cases are distinct by construction. Random: proptest cases (length <= 80/300, arrays dominated by one repeated value up to twice that, i64 with ties/extremes/sorted/reversed, strides +-1..3 inside a sentinel buffer, scripted pivots First/Last/Middle/Hash/real), distinct by 64-bit hash of the whole case. Non-trivial: array length >= 2 (so at least one pivot is drawn) and, for bulk, a non-empty request.",
             assumptions: COMMON_ASSUMPTIONS,
             profiles_quick: BOTH,
             profiles_thorough: BOTH,
@@ -104,7 +104,7 @@ pub fn all() -> Vec<Prop> {
             id: "C06",
             run: props::means::run_c06,
             replayers: props::means::replayers_c06,
-            rule: "proptest: element type (f64, f32, i32, i64, u32, usize) x 1-3-D shape x axis x independent layouts for data and weights (two views of the same storage type into sentinel parents) x data class (mixed signs, halves with ties, common offset up to 2^20 with small spread, mixed magnitudes 2^+-40 / 2^+-12, positive) x weight class (quarters, wide ratios, uniform, zero at first/middle/last, sparse, uniformly tiny 2^-40..2^-90); signed weights for the sum forms. Oracle: inputs are dyadic rationals, so sum x, sum w x and their absolute counterparts are computed exactly with big integers; accepted error (2n+8)u * sum|terms| evaluated exactly (weighted_mean: cross-multiplied, no division); integers: exact equality incl. truncating division; per-axis forms lane by lane against the exact oracle; harmonic mean against 200-bit reciprocals, geometric mean against exp of a compensated f64 mean log. Distinct by hash. Non-trivial: n >= 3 and (non-uniform weights or mixed signs).",
+            rule: "proptest: element type (f64, f32, i32, i64, u32, usize) x 1-3-D shape x axis x independent layouts for data and weights (two views of the same storage type into sentinel parents) x data class (mixed signs, halves with ties, common offset up to 2^20 with small spread, mixed magnitudes 2^+-40 / 2^+-12, positive) x weight class (quarters, wide ratios, uniform, zero at first/middle/last, sparse, uniformly tiny 2^-40..2^-90, full-mantissa weights in (0.1, 10); one case in eight makes the first element of every lane a far outlier of zero weight); signed weights for the sum forms. Oracle: inputs are dyadic rationals, so sum x, sum w x and their absolute counterparts are computed exactly with big integers; accepted error (2n+8)u * sum|terms| evaluated exactly (weighted_mean: cross-multiplied, no division); integers: exact equality incl. truncating division; per-axis forms lane by lane against the exact oracle; harmonic mean against 200-bit reciprocals, geometric mean against exp of a compensated f64 mean log. Distinct by hash. Non-trivial: n >= 3 and (non-uniform weights or mixed signs).",
             assumptions: NUM_ASSUMPTIONS,
             profiles_quick: BOTH,
             profiles_thorough: BOTH,
@@ -126,7 +126,7 @@ pub fn all() -> Vec<Prop> {
             id: "C08",
             run: props::pairs::run_c08,
             replayers: props::pairs::replayers_c08,
-            rule: "proptest: f64/f32 matrices of 1..8 variables x 2..64 (f32: 32) observations, 2-D layouts (C, F/transposed, stepped, reversed, padded views), data classes as in C06, ddof in {0, 1, quarters, k+1/2 < n}. Oracle: exact sums of products of n x - sum x (big integers) for every entry; budget [gamma sum|dx_i||dx_j| + n e_i e_j + gamma(e_i sum|dx_j| + e_j sum|dx_i|)]/(n-ddof); symmetry and non-negative diagonal within the budget; exact rho from the exact sums with a range-based budget for each sigma^2 (ndarray's std_axis is one-pass), diagonal 1, |rho| <= 1, invariance under x -> a x + b (a > 0; each side against its own exact value, powers of two also against each other) and sign flip under negation of one variable. Distinct by hash. Non-trivial: resolving, >= 2 variables, >= 3 observations, non-square.",
+            rule: "proptest: f64/f32 matrices of 1..8 variables x 2..64 (f32: 32) observations, 2-D layouts (C, F/transposed, stepped, reversed, padded views), data classes as in C06, ddof in {0, 1, quarters, k+1/2 < n, n-1/2, n-1/4}, whole-matrix scales 2^+-120/300 and per-variable scales in 2^+-400. Oracle: exact sums of products of n x - sum x (big integers) for every entry; budget [gamma sum|dx_i||dx_j| + n e_i e_j + gamma(e_i sum|dx_j| + e_j sum|dx_i|)]/(n-ddof); symmetry and non-negative diagonal within the budget; exact rho from the exact sums with a range-based budget for each sigma^2 (ndarray's std_axis is one-pass), diagonal 1, |rho| <= 1, invariance under x -> a x + b (a > 0; each side against its own exact value, powers of two also against each other) and sign flip under negation of one variable. Distinct by hash. Non-trivial: resolving, >= 2 variables, >= 3 observations, non-square.",
             assumptions: NUM_ASSUMPTIONS,
             profiles_quick: BOTH,
             profiles_thorough: BOTH,
@@ -137,7 +137,7 @@ pub fn all() -> Vec<Prop> {
             id: "C09",
             run: props::pairs::run_c09,
             replayers: props::pairs::replayers_c09,
-            rule: "proptest: element type (i32, i64, f64, f32, BigInt) x 1-4-D shape x independent layouts for the two operands x ownership pairing (view/owned/shared for each operand) x values (integer magnitudes bounded from n so nothing overflows; floats as in C06; NaN only to exercise count_eq/count_neq) with a share of equal positions. Oracle: element-wise loop over logical indexes in exact arithmetic (i128 / dyadic): count_eq exact and count_eq+count_neq == len; sq_l2/l1/linf exact for integers, within (2n+8)u of the exact value for floats (linf: 2u); l2, mean_abs_err, mean_sq_err, root_mean_sq_err, PSNR recomputed from the exact base with the documented formula; symmetry (exact for integers) and d(a,a) = 0. A second checker feeds two ALIASING views of one buffer (a square matrix and its transpose; a prefix and an every-second-element view: same first element, different strides) and demands the exact values. Distinct by hash. Non-trivial: >= 2 elements, >= 2 differing positions and operands with different layouts or ownership.",
+            rule: "proptest: element type (i32, i64, f64, f32, BigInt) x 1-4-D shape x independent layouts for the two operands x ownership pairing (view/owned/shared for each operand) x values (integer magnitudes bounded from n so nothing overflows; floats as in C06; NaN only to exercise count_eq/count_neq) with a share of equal positions. Oracle: element-wise loop over logical indexes in exact arithmetic (i128 / dyadic): count_eq exact and count_eq+count_neq == len; sq_l2/l1/linf exact for integers, within (2n+8)u of the exact value for floats (linf: 2u); l2, mean_abs_err, mean_sq_err, root_mean_sq_err, PSNR recomputed from the exact base with the documented formula AND checked at f64 accuracy as the documented functions of the routine's own sq_l2/l1 results (float data also under a common scale of 2^+-100/300 and with a peak next to the r.m.s. error, i.e. PSNR near 0 dB); symmetry (exact for integers) and d(a,a) = 0. A second checker feeds two ALIASING views of one buffer (a square matrix and its transpose; a prefix and an every-second-element view: same first element, different strides) and demands the exact values. Distinct by hash. Non-trivial: >= 2 elements, >= 2 differing positions and operands with different layouts or ownership.",
             assumptions: NUM_ASSUMPTIONS,
             profiles_quick: BOTH,
             profiles_thorough: BOTH,
@@ -148,7 +148,7 @@ pub fn all() -> Vec<Prop> {
             id: "C10",
             run: props::pairs::run_c10,
             replayers: props::pairs::replayers_c10,
-            rule: "proptest: f64/f32 arrays of 1-3 dimensions, p and q non-negative finite (k/4096, zeros, m 2^e), normalised or not, independent layouts for p and q, NaN placements in 10% of the cases. Oracle: -sum x ln x, -sum p ln q, -sum p ln(q/p) by f64 libm with compensated summation, zero-p terms contributing exactly 0 (so p=0 with q=NaN or q=0 stays finite), budget 2(2n+8)u sum|terms| (KL: + sum|p|); p>0 with q=0 => +inf; result NaN <=> a NaN in a contributing term; identities KL(p,p) == 0 (NaN when p holds a NaN), p against a reversed-axes view of its own buffer for shapes that read the same backwards, |H(p,q) - H(p) - KL(p,q)| within the summed budgets, KL >= -tol and H(p) <= ln n + tol for normalised input (normalisation defect charged). Distinct by hash. Non-trivial: >= 3 elements, resolving, and (a zero in p or q, or different layouts).",
+            rule: "proptest: f64/f32 arrays of 1-3 dimensions, p and q non-negative finite (k/4096, zeros, m 2^e), normalised or not, independent layouts for p and q, NaN placements in 10% of the cases; whole-array classes with entries 2^-300..2^-900 (|ln p| in the hundreds) and with q within 2^-20 of 1. Oracle: -sum x ln x, -sum p ln q, -sum p ln(q/p) by f64 libm with compensated summation, zero-p terms contributing exactly 0 (so p=0 with q=NaN or q=0 stays finite), budget 2(2n+8)u sum|terms| (KL: + sum|p|); p>0 with q=0 => +inf; result NaN <=> a NaN in a contributing term; identities KL(p,p) == 0 (NaN when p holds a NaN), p against a reversed-axes view of its own buffer for shapes that read the same backwards, |H(p,q) - H(p) - KL(p,q)| within the summed budgets, KL >= -tol and H(p) <= ln n + tol for normalised input (normalisation defect charged). Distinct by hash. Non-trivial: >= 3 elements, resolving, and (a zero in p or q, or different layouts).",
             assumptions: NUM_ASSUMPTIONS,
             profiles_quick: BOTH,
             profiles_thorough: BOTH,
@@ -170,7 +170,7 @@ pub fn all() -> Vec<Prop> {
             id: "C12",
             run: props::hist::run_c12,
             replayers: props::hist::replayers_c12,
-            rule: "proptest: element type (i32, i64, u32, usize within +-MAX/4; N64) x strategy (Sqrt, Rice, Sturges, FreedmanDiaconis, Auto) x data of length 0..400 (quick) / 4000 (thorough) from classes k/d grids (inexact in binary), large offset + spread down to single ulps, heavy ties (zero IQR) with outliers, moderate values, constant, empty; 1 column through from_array, 1-3 columns through GridBuilder followed by histogram. Domain precondition (counted as discarded): (max-min)/bin_width() <= 1e5. Termination is decided by a fuel budget of 64*(bins+2)+1000 iterations of the counting loop (hook), not by a clock. Oracle: empty => EmptyInput, constant => Strategy; accepted => first edge == min, equal widths (ints exactly, N64 within 2 ulp of max(largest |edge|, last edge - first edge): the documented min + i*width rounds the product at its own magnitude), last edge > max and last - max <= width, every observation in exactly one bin, histogram total == n, n_bins() == bins built (N64: when width >= 4 ulp of that magnitude). Distinct by hash. Non-trivial: accepted, >= 3 distinct values and (N64, or integer width >= 2, or span >= 2^20).",
+            rule: "proptest: element type (i32, i64, u32, usize within +-MAX/4; N64) x strategy (Sqrt, Rice, Sturges, FreedmanDiaconis, Auto) x data of length 0..400 (quick) / 4000 (thorough) from classes k/d grids (inexact in binary), large offset + spread down to single ulps, heavy ties (zero IQR) with outliers, moderate values, integers right below the type's maximum (max + width still representable), constant, empty; 1 column through from_array, 1-3 columns through GridBuilder followed by histogram. Domain precondition (counted as discarded): (max-min)/bin_width() <= 1e5. Termination is decided by a fuel budget of 64*(bins+2)+1000 iterations of the counting loop (hook), not by a clock. Oracle: empty => EmptyInput, constant => Strategy; accepted => first edge == min, equal widths (ints exactly, N64 within 2 ulp of max(largest |edge|, last edge - first edge): the documented min + i*width rounds the product at its own magnitude), last edge > max and last - max <= width, every observation in exactly one bin, histogram total == n, n_bins() == bins built (N64: when width >= 4 ulp of that magnitude). Distinct by hash. Non-trivial: accepted, >= 3 distinct values and (N64, or integer width >= 2, or span >= 2^20).",
             assumptions: COMMON_ASSUMPTIONS,
             profiles_quick: BOTH,
             profiles_thorough: BOTH,
